@@ -404,6 +404,14 @@ func checkC18Positional(c *Ctx, n int) {
 			{Name: "V", Exported: true, Kind: "v", Ty: "bool", Tag: `short:"v" long:"verbose"`},
 			{Name: "Args", Exported: true, Kind: "s", Sub: pos, Tag: `positional-args:"yes"`},
 		}}
+		// positional fields AND subcommands: once the fields are full, the next word is a command word
+		withCmds := !hasRest && r.Intn(2) == 0
+		if withCmds {
+			root.Fields = append(root.Fields,
+				FieldDesc{Name: "Start", Exported: true, Kind: "s", Sub: &StructDesc{}, Tag: `command:"start"`},
+				FieldDesc{Name: "Stop", Exported: true, Kind: "s", Sub: &StructDesc{}, Tag: `command:"stop"`},
+				FieldDesc{Name: "Other", Exported: true, Kind: "s", Sub: &StructDesc{}, Tag: `command:"other"`})
+		}
 		cs := &Case{Name: "app", NsDelim: ".", EnvNsDelim: "_"}
 		if r.Intn(2) == 0 {
 			cs.Opts |= flags.PassDoubleDash
@@ -413,6 +421,9 @@ func checkC18Positional(c *Ctx, n int) {
 		}
 		cs.Build = append(cs.Build, BuildOp{Kind: "addgroup", Target: 1, Short: "Application Options", Struct: root})
 		k := r.Intn(m + 3)
+		if withCmds {
+			k = r.Intn(m + 1)
+		}
 		var args []string
 		if r.Intn(2) == 0 {
 			args = append(args, "-v")
@@ -428,11 +439,15 @@ func checkC18Positional(c *Ctx, n int) {
 		if dd && ddAt == k {
 			args = append(args, "--")
 		}
-		args = append(args, "g")
+		last := "g"
+		if withCmds {
+			last = []string{"g", "st", "sto", ""}[r.Intn(4)]
+		}
+		args = append(args, last)
 		cs.Ops = []Op{{Kind: "complete", Args: args}}
 		cs.Description = describeOps(cs)
 		c.RunCases([]*Case{cs}, func(cr *CaseResult) {
-			c.Class(fmt.Sprintf("c18/positional fields=%d rest=%v typed=%d terminator=%v", m, hasRest, k, dd))
+			c.Class(fmt.Sprintf("c18/positional fields=%d rest=%v typed=%d terminator=%v subcommands=%v", m, hasRest, k, dd, withCmds))
 			c.Distinct(cs.Description)
 			compL := firstLine(cr.Impl, "COMP ")
 			if compL == "" {
@@ -452,10 +467,21 @@ func checkC18Positional(c *Ctx, n int) {
 			}
 			want := []string{}
 			if kEff < m || hasRest {
-				want = []string{"green", "grey"}
+				for _, col := range []string{"blue", "green", "grey", "red"} {
+					if strings.HasPrefix(col, last) {
+						want = append(want, col)
+					}
+				}
+			} else if withCmds && !(dd && ddAt <= k) && !(cs.Opts&flags.PassAfterNonOption != 0 && k > 0) {
+				// every field is full and nothing passed the rest through: command words
+				for _, cmd := range []string{"other", "start", "stop"} {
+					if strings.HasPrefix(cmd, last) {
+						want = append(want, cmd)
+					}
+				}
 			}
 			ok := fmt.Sprint(items) == fmt.Sprint(want) || (len(items) == 0 && len(want) == 0)
-			in := map[string]interface{}{"case": cs.Description, "args": args, "positional_fields": m, "rest_slice": hasRest, "values_typed": k}
+			in := map[string]interface{}{"case": cs.Description, "args": args, "positional_fields": m, "rest_slice": hasRest, "values_typed": k, "subcommands": withCmds, "last_word": last}
 			if !ok {
 				in["case_file"] = c.saveCase(cr)
 			}
